@@ -112,6 +112,9 @@ pub struct Shared {
     stop_notify: Notify,
     /// keep full Tx bytes (C03/C20) or only lengths
     pub capture_tx: AtomicBool,
+    /// statement texts carrying the `failonce` directive whose first Parse has already been rejected (by any backend of the
+    /// case: "the table exists now" holds for all of them)
+    pub failed_once: Mutex<std::collections::HashSet<String>>,
 }
 
 impl Shared {
@@ -127,6 +130,7 @@ impl Shared {
             stop: AtomicBool::new(false),
             stop_notify: Notify::new(),
             capture_tx: AtomicBool::new(true),
+            failed_once: Mutex::new(Default::default()),
         })
     }
 
@@ -854,7 +858,7 @@ impl Session {
                     self.ext_fail("42601", "syntax error (directed)", stmt.tag);
                     return None;
                 }
-                if stmt.directive.failonce && self.cfg.failed_once.lock().unwrap().insert(p.sql.clone()) {
+                if stmt.directive.failonce && self.shared.failed_once.lock().unwrap().insert(p.sql.clone()) {
                     self.ext_fail("42P01", "relation does not exist (directed, first attempt only)", stmt.tag);
                     return None;
                 }
